@@ -123,6 +123,8 @@ def execute(args):
             open(tmp_env, "w").close()
         elif opt.get("tmp_form") == "relative":
             tmp_env = os.path.relpath(tmpdir, os.path.join(work, "cwd"))
+        elif opt.get("tmp_form") == "empty":
+            tmp_env = ""            # TMPDIR set to the empty string: Rust's temp_dir() is then "" and scratch files are relative to the cwd
         elif opt.get("tmp_form") == "trailing-slash":
             tmp_env = tmpdir + "/"
         elif opt.get("tmp_form") == "readonly":
